@@ -10,16 +10,17 @@
 (* responses, streaming.                                                      *)
 (*                                                                         *)
 (* goroutine        actions                                   code           *)
-(* peer (env)       ClientSend ClientCancel PeerGone NetDrop  the client and the network            *)
+(* peer (env)       ClientSend ClientCancel PeerGone PeerCut  the client and the network            *)
+(*                  NetDrop                                                                          *)
 (* application      SrvCancel HReturn PClose                  the request context, handler bodies   *)
-(* reader           RdNext RdErr RdGiveUp RdQueue             nextMessage / readFrame               *)
+(* reader           RdNext RdErr RdGiveUp RdQueue RdFrameFail nextMessage / readFrame               *)
 (* main loop        MainIncomingMsg MainIncomingClosed        handleWsConn select                   *)
 (*                  MainCtxDone Exit0 ExitWait ExitChans      deferred steps in LIFO order           *)
 (*                  ExitInFlight ExitHandling ExitExiting                                            *)
 (*                  CloseSocket                               server.go handleWS: c.Close()          *)
 (* frame executor   ExPop ExCall ExCancel ExExit              frameExecutor / handleCall / cancelCtx *)
 (* handler (per id) HStart HReturn WriteResp HDone            handler.handle, done()                 *)
-(*                  HChanReg HChanRegFail                     handleChanOut                          *)
+(*                  FwdSpawn HChanReg HChanRegFail            handleChanOut                          *)
 (* forwarder        FwdRegWrite FwdTake FwdValWrite           handleOutChans                         *)
 (*                  FwdCloseTake FwdClsWrite FwdExit                                                 *)
 (*                                                                         *)
@@ -43,14 +44,14 @@ NotifKinds == {"notif", "pnotif"}
 VARIABLES
   kind,                                                   \* what each token is (fixed during a behaviour)
   net, sentReq, cancelsSent, peer,                        \* peer and network: peer \in {"up","closed","lost"}
-  rd, rdMsg, incClosed, execQ, ex, exec,                  \* reader, executor
-  main, connCtx, exiting, sockClosed, closeSent,          \* main loop and connection
+  rd, rdMsg, incClosed, readErr, execQ, ex, exec,         \* reader, executor
+  main, connCtx, exiting, sockClosed, closeSent, wfail,   \* main loop and connection (wfail: a write has failed; write errors are sticky)
   handling, hst, hctx, cancelRecv,                        \* handling table, handler goroutines, their contexts
   fwd, chans, chanCtr, taken, pclosed, fclosed,           \* forwarder
   out                                                     \* frames written to the peer, in order
 envVars  == <<net, sentReq, cancelsSent, peer>>
-rdVars   == <<rd, rdMsg, incClosed, execQ, ex, exec>>
-mainVars == <<main, connCtx, exiting, sockClosed, closeSent>>
+rdVars   == <<rd, rdMsg, incClosed, readErr, execQ, ex, exec>>
+mainVars == <<main, connCtx, exiting, sockClosed, closeSent, wfail>>
 hVars    == <<handling, hst, hctx, cancelRecv>>
 fVars    == <<fwd, chans, chanCtr, taken, pclosed, fclosed>>
 vars == <<kind, envVars, rdVars, mainVars, hVars, fVars, out>>
@@ -58,14 +59,18 @@ vars == <<kind, envVars, rdVars, mainVars, hVars, fVars, out>>
 Init ==
   /\ kind = InitKind
   /\ net = <<>> /\ sentReq = {} /\ cancelsSent = [i \in Ids |-> 0] /\ peer = "up"
-  /\ rd = "wait" /\ rdMsg = <<"none">> /\ incClosed = FALSE /\ execQ = <<>> /\ ex = <<"idle">> /\ exec = "run"
-  /\ main = "select" /\ connCtx = "live" /\ exiting = FALSE /\ sockClosed = FALSE /\ closeSent = FALSE
+  /\ rd = "wait" /\ rdMsg = <<"none">> /\ incClosed = FALSE /\ readErr = FALSE /\ execQ = <<>> /\ ex = <<"idle">> /\ exec = "run"
+  /\ main = "select" /\ connCtx = "live" /\ exiting = FALSE /\ sockClosed = FALSE /\ closeSent = FALSE /\ wfail = FALSE
   /\ handling = {} /\ hst = [i \in Ids |-> "none"] /\ hctx = [i \in Ids |-> "none"] /\ cancelRecv = {}
   /\ fwd = <<"none">> /\ chans = {} /\ chanCtr = 0 /\ taken = [i \in Ids |-> 0] /\ pclosed = {} /\ fclosed = {}
   /\ out = <<>>
 
 WriterOK == ~sockClosed /\ ~closeSent
-Write(f) == IF WriterOK THEN Append(out, f) ELSE out
+\* a write succeeds on a live connection, fails once the socket is closed or the close frame was sent, and may go either way
+\* when the peer is gone but the server has not noticed yet (kernel buffers / broken pipe)
+WriteMay == IF ~WriterOK \/ wfail THEN {FALSE} ELSE IF peer = "up" THEN {TRUE} ELSE {TRUE, FALSE}
+Written(f, ok) == IF ok THEN Append(out, f) ELSE out
+Fail(ok) == wfail \/ ~ok
 
 (* ================================ peer and network ================================ *)
 ClientSend(i) == /\ kind[i] # "none" /\ i \notin sentReq /\ peer = "up"
@@ -78,6 +83,9 @@ ClientCancel(i) == /\ cancelsSent[i] < MaxCancel /\ peer = "up"
 \* the peer goes away: with a close frame ("closed": the server's close handler answers it, no writer afterwards) or without
 PeerGone(how) == /\ peer = "up" /\ how \in {"closed", "lost"} /\ peer' = how
                  /\ UNCHANGED <<kind, net, sentReq, cancelsSent, rdVars, mainVars, hVars, fVars, out>>
+\* the link dies inside a frame: the server gets the beginning of a message and then the end of the stream
+PeerCut == /\ peer = "up" /\ peer' = "lost" /\ net' = Append(net, <<"trunc">>)
+           /\ UNCHANGED <<kind, sentReq, cancelsSent, rdVars, mainVars, hVars, fVars, out>>
 \* frames in flight when the link dies may be lost
 NetDrop == /\ peer # "up" /\ Len(net) > 0 /\ net' = Tail(net)
            /\ UNCHANGED <<kind, sentReq, cancelsSent, peer, rdVars, mainVars, hVars, fVars, out>>
@@ -86,58 +94,64 @@ NetDrop == /\ peer # "up" /\ Len(net) > 0 /\ net' = Tail(net)
 \* nextMessage: NextReader returned a data message; about to hand it to the main loop
 RdNext == /\ rd = "wait" /\ Len(net) > 0 /\ ~sockClosed
           /\ rd' = "hasmsg" /\ rdMsg' = Head(net) /\ net' = Tail(net)
-          /\ UNCHANGED <<kind, sentReq, cancelsSent, peer, incClosed, execQ, ex, exec, mainVars, hVars, fVars, out>>
+          /\ UNCHANGED <<kind, sentReq, cancelsSent, peer, incClosed, readErr, execQ, ex, exec, mainVars, hVars, fVars, out>>
 \* NextReader failed (peer gone and nothing left to read, or the socket was closed under it): incomingErr set, close(incoming)
 RdErr == /\ rd = "wait" /\ (sockClosed \/ (peer # "up" /\ net = <<>>))
          /\ rd' = "gone" /\ incClosed' = TRUE /\ closeSent' = (closeSent \/ (peer = "closed" /\ ~sockClosed))
-         /\ UNCHANGED <<kind, envVars, rdMsg, execQ, ex, exec, main, connCtx, exiting, sockClosed, hVars, fVars, out>>
+         /\ UNCHANGED <<kind, envVars, rdMsg, readErr, execQ, ex, exec, main, connCtx, exiting, sockClosed, wfail, hVars, fVars, out>>
 \* select { case c.incoming <- r: / case <-c.exiting: } (repair 0025104): the loop is gone, the reader lets go
 RdGiveUp == /\ rd = "hasmsg" /\ exiting /\ rd' = "gone" /\ rdMsg' = <<"none">>
-            /\ UNCHANGED <<kind, envVars, incClosed, execQ, ex, exec, mainVars, hVars, fVars, out>>
+            /\ UNCHANGED <<kind, envVars, incClosed, readErr, execQ, ex, exec, mainVars, hVars, fVars, out>>
 \* readFrame: the whole frame was read; c.frameExecQueue <- buf; then the next nextMessage is started
-RdQueue == /\ rd = "reading" /\ execQ' = Append(execQ, rdMsg) /\ rd' = "wait" /\ rdMsg' = <<"none">>
-           /\ UNCHANGED <<kind, envVars, incClosed, ex, exec, mainVars, hVars, fVars, out>>
+RdQueue == /\ rd = "reading" /\ rdMsg # <<"trunc">> /\ execQ' = Append(execQ, rdMsg) /\ rd' = "wait" /\ rdMsg' = <<"none">>
+           /\ UNCHANGED <<kind, envVars, incClosed, readErr, ex, exec, mainVars, hVars, fVars, out>>
+\* readFrame: ReadAll failed in the middle of the frame: incomingErr set, the error goes to the main loop, no further read
+RdFrameFail == /\ rd = "reading" /\ rdMsg = <<"trunc">> /\ rd' = "gone" /\ rdMsg' = <<"none">> /\ readErr' = TRUE
+               /\ UNCHANGED <<kind, envVars, incClosed, execQ, ex, exec, mainVars, hVars, fVars, out>>
 
 (* ================================ main loop ================================ *)
 MainIncomingMsg == /\ main = "select" /\ rd = "hasmsg" /\ rd' = "reading"
-                   /\ UNCHANGED <<kind, envVars, rdMsg, incClosed, execQ, ex, exec, mainVars, hVars, fVars, out>>
+                   /\ UNCHANGED <<kind, envVars, rdMsg, incClosed, readErr, execQ, ex, exec, mainVars, hVars, fVars, out>>
 \* incoming closed: a server-side connection has no factory, the loop returns
 MainIncomingClosed == /\ main = "select" /\ incClosed /\ main' = "exit0"
-                      /\ UNCHANGED <<kind, envVars, rdVars, connCtx, exiting, sockClosed, closeSent, hVars, fVars, out>>
+                      /\ UNCHANGED <<kind, envVars, rdVars, connCtx, exiting, sockClosed, closeSent, wfail, hVars, fVars, out>>
+\* case rerr := <-c.readError: no factory on the server side, the loop returns
+MainReadError == /\ main = "select" /\ readErr /\ main' = "exit0"
+                 /\ UNCHANGED <<kind, envVars, rdVars, connCtx, exiting, sockClosed, closeSent, wfail, hVars, fVars, out>>
 MainCtxDone == /\ main = "select" /\ connCtx = "cancelled" /\ main' = "exit0"
-               /\ UNCHANGED <<kind, envVars, rdVars, connCtx, exiting, sockClosed, closeSent, hVars, fVars, out>>
+               /\ UNCHANGED <<kind, envVars, rdVars, connCtx, exiting, sockClosed, closeSent, wfail, hVars, fVars, out>>
 \* every handler context derives from the connection's
 CancelAll == [i \in Ids |-> IF hctx[i] = "live" /\ Variant # "no-exit-cancel" THEN "cancelled" ELSE hctx[i]]
 \* the application cancels the request context the connection was served under
 SrvCancel == /\ connCtx = "live" /\ connCtx' = "cancelled" /\ hctx' = CancelAll
-             /\ UNCHANGED <<kind, envVars, rdVars, main, exiting, sockClosed, closeSent, handling, hst, cancelRecv, fVars, out>>
+             /\ UNCHANGED <<kind, envVars, rdVars, main, exiting, sockClosed, closeSent, wfail, handling, hst, cancelRecv, fVars, out>>
 \* deferred steps, LIFO.  cancel(); <-execDone (repair 9e0df5e)
 Exit0 == /\ main = "exit0" /\ main' = "exit-wait" /\ connCtx' = "cancelled" /\ hctx' = CancelAll
-         /\ UNCHANGED <<kind, envVars, rdVars, exiting, sockClosed, closeSent, handling, hst, cancelRecv, fVars, out>>
+         /\ UNCHANGED <<kind, envVars, rdVars, exiting, sockClosed, closeSent, wfail, handling, hst, cancelRecv, fVars, out>>
 ExitWait == /\ main = "exit-wait" /\ exec = "gone" /\ main' = "exit-chans"
-            /\ UNCHANGED <<kind, envVars, rdVars, connCtx, exiting, sockClosed, closeSent, hVars, fVars, out>>
+            /\ UNCHANGED <<kind, envVars, rdVars, connCtx, exiting, sockClosed, closeSent, wfail, hVars, fVars, out>>
 \* stopPings; closeChans (client-side tables: nothing on a server without reverse calls)
 ExitChans == /\ main = "exit-chans" /\ main' = "exit-inflight"
-             /\ UNCHANGED <<kind, envVars, rdVars, connCtx, exiting, sockClosed, closeSent, hVars, fVars, out>>
+             /\ UNCHANGED <<kind, envVars, rdVars, connCtx, exiting, sockClosed, closeSent, wfail, hVars, fVars, out>>
 ExitInFlight == /\ main = "exit-inflight" /\ main' = "exit-handling"
-                /\ UNCHANGED <<kind, envVars, rdVars, connCtx, exiting, sockClosed, closeSent, hVars, fVars, out>>
+                /\ UNCHANGED <<kind, envVars, rdVars, connCtx, exiting, sockClosed, closeSent, wfail, hVars, fVars, out>>
 \* closeInFlight, second half: every registered cancel function is called, the table emptied
 ExitHandling == /\ main = "exit-handling" /\ main' = "exit-exiting"
                 /\ hctx' = [i \in Ids |-> IF i \in handling /\ hctx[i] = "live" /\ Variant # "no-exit-cancel" THEN "cancelled" ELSE hctx[i]] /\ handling' = {}
-                /\ UNCHANGED <<kind, envVars, rdVars, connCtx, exiting, sockClosed, closeSent, hst, cancelRecv, fVars, out>>
+                /\ UNCHANGED <<kind, envVars, rdVars, connCtx, exiting, sockClosed, closeSent, wfail, hst, cancelRecv, fVars, out>>
 ExitExiting == /\ main = "exit-exiting" /\ exiting' = TRUE /\ main' = "returned"
-               /\ UNCHANGED <<kind, envVars, rdVars, connCtx, sockClosed, closeSent, hVars, fVars, out>>
+               /\ UNCHANGED <<kind, envVars, rdVars, connCtx, sockClosed, closeSent, wfail, hVars, fVars, out>>
 \* handleWS: c.Close() once handleWsConn has returned
 CloseSocket == /\ main = "returned" /\ ~sockClosed /\ sockClosed' = TRUE
-               /\ UNCHANGED <<kind, envVars, rdVars, main, connCtx, exiting, closeSent, hVars, fVars, out>>
+               /\ UNCHANGED <<kind, envVars, rdVars, main, connCtx, exiting, closeSent, wfail, hVars, fVars, out>>
 
 (* ================================ frame executor ================================ *)
 ExPop == /\ exec = "run" /\ ex = <<"idle">> /\ Len(execQ) > 0
          /\ ex' = <<"popped", Head(execQ)>> /\ execQ' = Tail(execQ)
-         /\ UNCHANGED <<kind, envVars, rd, rdMsg, incClosed, exec, mainVars, hVars, fVars, out>>
+         /\ UNCHANGED <<kind, envVars, rd, rdMsg, incClosed, readErr, exec, mainVars, hVars, fVars, out>>
 \* case <-ctx.Done(): return
 ExExit == /\ exec = "run" /\ ex = <<"idle">> /\ connCtx = "cancelled" /\ exec' = "gone"
-          /\ UNCHANGED <<kind, envVars, rd, rdMsg, incClosed, execQ, ex, mainVars, hVars, fVars, out>>
+          /\ UNCHANGED <<kind, envVars, rd, rdMsg, incClosed, readErr, execQ, ex, mainVars, hVars, fVars, out>>
 \* handleCall: ctx, cancel := WithCancel(ctx); handling[id] = cancel (requests only); go handler.handle(...)
 ExCall == /\ ex[1] = "popped" /\ ex[2][1] \in {"req", "notif"}
           /\ LET i == ex[2][2] IN
@@ -145,7 +159,7 @@ ExCall == /\ ex[1] = "popped" /\ ex[2][1] \in {"req", "notif"}
              /\ hst' = [hst EXCEPT ![i] = "spawned"]
              /\ hctx' = [hctx EXCEPT ![i] = IF connCtx = "cancelled" THEN "cancelled" ELSE "live"]
           /\ ex' = <<"idle">>
-          /\ UNCHANGED <<kind, envVars, rd, rdMsg, incClosed, execQ, exec, mainVars, cancelRecv, fVars, out>>
+          /\ UNCHANGED <<kind, envVars, rd, rdMsg, incClosed, readErr, execQ, exec, mainVars, cancelRecv, fVars, out>>
 \* cancelCtx: under handlingLk, look the id up and call its cancel function
 ExCancel == /\ ex[1] = "popped" /\ ex[2][1] = "cancel"
             /\ LET i == ex[2][2] IN
@@ -153,7 +167,7 @@ ExCancel == /\ ex[1] = "popped" /\ ex[2][1] = "cancel"
                           ELSE IF i \in handling /\ hctx[i] = "live" THEN [hctx EXCEPT ![i] = "cancelled"] ELSE hctx
                /\ cancelRecv' = cancelRecv \cup {i}
             /\ ex' = <<"idle">>
-            /\ UNCHANGED <<kind, envVars, rd, rdMsg, incClosed, execQ, exec, mainVars, handling, hst, fVars, out>>
+            /\ UNCHANGED <<kind, envVars, rd, rdMsg, incClosed, readErr, execQ, exec, mainVars, handling, hst, fVars, out>>
 
 (* ================================ handler goroutines ================================ *)
 HStart(i) == /\ hst[i] = "spawned" /\ hst' = [hst EXCEPT ![i] = "running"]
@@ -166,21 +180,25 @@ HReturn(i) == /\ hst[i] = "running"
               /\ UNCHANGED <<kind, envVars, rdVars, mainVars, handling, cancelRecv, fVars, out>>
 \* the response (result, or error for a panic / a failed channel registration) is written in one writeLk section
 RespKinds(i) == IF kind[i] = "unary" THEN {"val", "err"} ELSE {"err"}       \* a handler may return an error; a panic always yields one
-WriteResp(i) == /\ hst[i] = "returned" /\ (\E k \in RespKinds(i) : out' = Write(<<"resp", i, k>>)) /\ hst' = [hst EXCEPT ![i] = "written"]
-                /\ UNCHANGED <<kind, envVars, rdVars, mainVars, handling, hctx, cancelRecv, fVars>>
+WriteResp(i) == /\ hst[i] = "returned" /\ (\E k \in RespKinds(i), ok \in WriteMay : out' = Written(<<"resp", i, k>>, ok) /\ wfail' = Fail(ok))
+                /\ hst' = [hst EXCEPT ![i] = "written"]
+                /\ UNCHANGED <<kind, envVars, rdVars, main, connCtx, exiting, sockClosed, closeSent, handling, hctx, cancelRecv, fVars>>
 \* done(keepCtx): under handlingLk; a channel-returning method keeps its context and its table entry
 HDone(i) == /\ hst[i] = "written" /\ hst' = [hst EXCEPT ![i] = "done"]
             /\ IF kind[i] = "sub" THEN UNCHANGED <<handling, hctx>>
                ELSE /\ handling' = handling \ {i} /\ hctx' = [hctx EXCEPT ![i] = "cancelled"]
             /\ UNCHANGED <<kind, envVars, rdVars, mainVars, cancelRecv, fVars, out>>
 \* handleChanOut: rendez-vous with the forwarder on registerCh (the forwarder is started by the first registration) ...
-FwdFree == fwd \in {<<"none">>, <<"idle">>}
-HChanReg(i) == /\ hst[i] = "chanret" /\ FwdFree
+\* spawnOutChanHandlerOnce.Do(go handleOutChans): the first channel-returning handler starts the forwarder, also on a
+\* connection that is already exiting (the forwarder then leaves at once)
+FwdSpawn(i) == /\ hst[i] = "chanret" /\ fwd = <<"none">> /\ fwd' = <<"idle">>
+               /\ UNCHANGED <<kind, envVars, rdVars, mainVars, hVars, chans, chanCtr, taken, pclosed, fclosed, out>>
+HChanReg(i) == /\ hst[i] = "chanret" /\ fwd = <<"idle">>
                /\ chanCtr' = chanCtr + 1 /\ chans' = chans \cup {<<chanCtr + 1, i>>} /\ fwd' = <<"reg", i>>
                /\ hst' = [hst EXCEPT ![i] = "done"]
                /\ UNCHANGED <<kind, envVars, rdVars, mainVars, handling, hctx, cancelRecv, taken, pclosed, fclosed, out>>
 \* ... or case <-c.exiting: "connection closing" -> error response
-HChanRegFail(i) == /\ hst[i] = "chanret" /\ exiting /\ hst' = [hst EXCEPT ![i] = "returned"]
+HChanRegFail(i) == /\ hst[i] = "chanret" /\ fwd # <<"none">> /\ exiting /\ hst' = [hst EXCEPT ![i] = "returned"]
                    /\ UNCHANGED <<kind, envVars, rdVars, mainVars, handling, hctx, cancelRecv, fVars, out>>
 \* the application side of a stream: the producer closes the channel (all values sent, or its context was cancelled)
 PClose(i) == /\ (\E c \in chans : c[2] = i) /\ i \notin pclosed
@@ -190,36 +208,36 @@ PClose(i) == /\ (\E c \in chans : c[2] = i) /\ i \notin pclosed
 
 (* ================================ channel forwarder ================================ *)
 \* the response carrying the channel id is written by the forwarder, before it forwards anything of that channel
-FwdRegWrite == /\ fwd[1] = "reg" /\ out' = Write(<<"resp", fwd[2], "chan">>) /\ fwd' = <<"idle">>
-               /\ UNCHANGED <<kind, envVars, rdVars, mainVars, hVars, chans, chanCtr, taken, pclosed, fclosed>>
+FwdRegWrite == /\ fwd[1] = "reg" /\ (\E ok \in WriteMay : out' = Written(<<"resp", fwd[2], "chan">>, ok) /\ wfail' = Fail(ok)) /\ fwd' = <<"idle">>
+               /\ UNCHANGED <<kind, envVars, rdVars, main, connCtx, exiting, sockClosed, closeSent, hVars, chans, chanCtr, taken, pclosed, fclosed>>
 \* a value is received from a registered channel
 \* (also after the producer closed the channel: values it had sent before are still delivered; never after the forwarder saw the close)
 FwdTake(i) == /\ (fwd = <<"idle">> \/ (Variant = "val-before-resp" /\ fwd[1] = "reg")) /\ (\E c \in chans : c[2] = i) /\ i \notin fclosed /\ taken[i] < NVals
               /\ taken' = [taken EXCEPT ![i] = @ + 1] /\ fwd' = <<"val", i, taken[i] + 1>>
               /\ UNCHANGED <<kind, envVars, rdVars, mainVars, hVars, chans, chanCtr, pclosed, fclosed, out>>
 \* sendRequest(xrpc.ch.val): a failed write ends the forwarder
-FwdValWrite == /\ fwd[1] = "val" /\ out' = Write(<<"val", fwd[2], fwd[3]>>) /\ fwd' = IF WriterOK THEN <<"idle">> ELSE <<"gone">>
-               /\ UNCHANGED <<kind, envVars, rdVars, mainVars, hVars, chans, chanCtr, taken, pclosed, fclosed>>
+FwdValWrite == /\ fwd[1] = "val" /\ (\E ok \in WriteMay : out' = Written(<<"val", fwd[2], fwd[3]>>, ok) /\ wfail' = Fail(ok) /\ fwd' = IF ok THEN <<"idle">> ELSE <<"gone">>)
+               /\ UNCHANGED <<kind, envVars, rdVars, main, connCtx, exiting, sockClosed, closeSent, hVars, chans, chanCtr, taken, pclosed, fclosed>>
 \* a registered channel was closed by the application
 FwdCloseTake(i) == /\ fwd = <<"idle">> /\ i \in pclosed /\ i \notin fclosed /\ (\E c \in chans : c[2] = i)
                    /\ fclosed' = fclosed \cup {i} /\ fwd' = <<"cls", i>>
                    /\ UNCHANGED <<kind, envVars, rdVars, mainVars, hVars, chans, chanCtr, taken, pclosed, out>>
-FwdClsWrite == /\ fwd[1] = "cls" /\ out' = Write(<<"cls", fwd[2]>>) /\ fwd' = <<"idle">>
-               /\ UNCHANGED <<kind, envVars, rdVars, mainVars, hVars, chans, chanCtr, taken, pclosed, fclosed>>
+FwdClsWrite == /\ fwd[1] = "cls" /\ (\E ok \in WriteMay : out' = Written(<<"cls", fwd[2]>>, ok) /\ wfail' = Fail(ok)) /\ fwd' = <<"idle">>
+               /\ UNCHANGED <<kind, envVars, rdVars, main, connCtx, exiting, sockClosed, closeSent, hVars, chans, chanCtr, taken, pclosed, fclosed>>
 \* exiting closed
 FwdExit == /\ fwd = <<"idle">> /\ exiting /\ fwd' = <<"gone">>
            /\ UNCHANGED <<kind, envVars, rdVars, mainVars, hVars, chans, chanCtr, taken, pclosed, fclosed, out>>
 
 LibNext ==
-  \/ RdNext \/ RdErr \/ RdGiveUp \/ RdQueue
-  \/ MainIncomingMsg \/ MainIncomingClosed \/ MainCtxDone \/ Exit0 \/ ExitWait \/ ExitChans \/ ExitInFlight \/ ExitHandling \/ ExitExiting \/ CloseSocket
+  \/ RdNext \/ RdErr \/ RdGiveUp \/ RdQueue \/ RdFrameFail
+  \/ MainIncomingMsg \/ MainIncomingClosed \/ MainReadError \/ MainCtxDone \/ Exit0 \/ ExitWait \/ ExitChans \/ ExitInFlight \/ ExitHandling \/ ExitExiting \/ CloseSocket
   \/ ExPop \/ ExExit \/ ExCall \/ ExCancel
-  \/ \E i \in Ids : HStart(i) \/ WriteResp(i) \/ HDone(i) \/ HChanReg(i) \/ HChanRegFail(i) \/ FwdTake(i) \/ FwdCloseTake(i)
+  \/ \E i \in Ids : HStart(i) \/ WriteResp(i) \/ HDone(i) \/ FwdSpawn(i) \/ HChanReg(i) \/ HChanRegFail(i) \/ FwdTake(i) \/ FwdCloseTake(i)
   \/ FwdRegWrite \/ FwdValWrite \/ FwdClsWrite \/ FwdExit
 EnvNext ==
   \/ \E i \in Ids : ClientSend(i) \/ ClientCancel(i) \/ HReturn(i) \/ PClose(i)
   \/ \E how \in {"closed", "lost"} : PeerGone(how)
-  \/ NetDrop \/ SrvCancel
+  \/ NetDrop \/ PeerCut \/ SrvCancel
 Next == LibNext \/ EnvNext
 Spec == Init /\ [][Next]_vars
 \* fairness of the library, of handler bodies once their context is cancelled, and of producers
